@@ -37,6 +37,12 @@ func c10Check(ctx *vfCtx, c grCase) {
 	algo := c10Algo(c.Version)
 	ctx.Class("algo/" + algo)
 	ctx.Class(fmt.Sprintf("sets/%d", len(p.Sets)))
+	for _, e := range p.PDUs {
+		if len(e.PrevEventIDs()) >= 2 {
+			ctx.Class("history-with-merge-event")
+			break
+		}
+	}
 	auth := c10AuthFor(c.Version, p)
 	isRejected := func(id string) bool { return p.Rejected[id] }
 	var got []PDU
